@@ -27,7 +27,7 @@ CLAIMED = {
          "Lean kernel + three standard axioms; translator tools/translate/tr_c20.py; hand-typed CODATA 2018/SI/IUPAC references; 4 digits read as rel 5e-4.",
          "6/C20"),
  "C14": ("Lean 4 proof (partition of the unit interval for every tree shape by structural induction, totality, construction for every tie order; "
-         "positivity/linearity/detailed balance/waiting time over the reals about the Marcus expression regenerated from rate_engine.cc) + correspondence",
+         "positivity/linearity/detailed balance/waiting time over the reals about the Marcus expression and the effective reorganisation energies regenerated from rate_engine.cc) + correspondence",
          "Tree theorems quantify over every tree shape, offset and lookup argument; rate theorems are about an expression re-translated from "
          "the source on every run. The models are tied to the working tree by dumping the real huffmanTree of GNode (thresholds, lookups at 0, 1, every "
          "threshold, +-1 ulp, midpoints; per-event measure compared exactly on dyadic rates) and by running Rate_Engine::Rate on generated pairs.",
@@ -72,7 +72,8 @@ CLAIMED = {
          "6/C16"),
  "C05": ("Lean 4 proof by invariants over all reachable states of a transition-system model of ProcessData / Worker::Run for every worker count, file "
          "length, --nframes budget and schedule (reads and merges in file order, reader and merge mutual exclusion, deadlock freedom, bounded steps, final "
-         "state, thread-count independence) + replay of the real CsgApplication under a controlled scheduler (VOTCA_VERIF hooks) on the model",
+         "state, thread-count independence) + replay of the real CsgApplication under a controlled scheduler (VOTCA_VERIF hooks) on the model "
+         "+ the real csg_stat run with --nt 1 and --nt 2..8 on generated inputs, every written file compared byte for byte",
          "The ordered-mode protocol is proved for all n, F, budgets and schedules. The model is tied to the working tree by driving the real "
          "CsgApplication (stub readers) through generated and exhaustively enumerated schedules and replaying every event trace on the model's step "
          "function; mutual exclusion, frame-once, merge order and deadlock clauses are also judged on the traces themselves.",
@@ -80,11 +81,12 @@ CLAIMED = {
          "6/C05"),
  "C10": ("Lean 4 proof by a 15-clause invariant over all reachable states of a transition-system model of the job-file protocol for every process count, cache "
          "size, job count and interleaving (no job executed twice, results kept), lock mode regenerated from the source, back-up/write order crash "
-         "consistency + replay of real forked ProgObserver processes under controlled interleaving and kill injection (VOTCA_VERIF hooks)",
+         "consistency; step-level theorems about a second model with job-file history, restart patterns and maxjobs (merge takes the foreign record, start test, assignment loop) "
+         "+ replay of real forked ProgObserver processes under controlled interleaving and kill injection (VOTCA_VERIF hooks)",
          "assigned_once / result_kept hold for all P, c, J and all crash-free interleavings with the lock mode the translator reads from "
          "progressobserver.cc; the model is tied to the working tree by running 1..4 real processes on one job file, interleaved and killed at the hook "
          "points, replaying every trace on the model and judging assigned-once, nothing-lost, results-kept, lock exclusion and one-complete-copy on the traces.",
-         "Lean kernel + three standard axioms; hooks (commits 8d4c01644, 541b02a2b); fcntl semantics as observed; PARTIAL: maxjobs and restart patterns neither modelled nor claimed; crash transitions judged by trace predicates only.",
+         "Lean kernel + three standard axioms; hooks (commits 8d4c01644, 541b02a2b); fcntl semantics as observed; restart patterns / maxjobs / history: second model Votca.C10R with step-level theorems, whole runs tied by replay and trace-level clauses (no invariant proof there); crash transitions judged by trace predicates only.",
          "6/C10"),
  "C12": ("Lean 4 proof of exact identities over Q about basis functions regenerated from cubicspline.cc (values at knots, continuity, derivative jump = "
          "row residual of the linear system, natural/periodic boundary rows, line exactness, superposition, Taylor identities = derivative consistency) "
